@@ -7,6 +7,7 @@ import (
 	"os"
 	"sort"
 	"strings"
+	"time"
 
 	"verif/engine/gosym"
 )
@@ -50,6 +51,13 @@ func main() {
 		k = parts[0]
 		fmt.Sscan(parts[1], &v)
 		cfg.Params[k] = v
+	}
+	if os.Getenv("VERIF_SLOWLOG") != "" {
+		n := 0
+		gosym.SlowLog = func(script string, d time.Duration, verdict string) {
+			n++
+			os.WriteFile(fmt.Sprintf("%s/slow-%d.smt2", os.Getenv("VERIF_SLOWLOG"), n), []byte(fmt.Sprintf("; %v %s\n%s", d, verdict, script)), 0o644)
+		}
 	}
 	res := gosym.Explore(p, fn, cfg)
 	fmt.Printf("paths=%d steps=%d obligations=%d discharged=%d solver_calls=%d solver_time=%v wall=%v\n",
